@@ -75,7 +75,10 @@ def families(rng, prob):
     xu = xl + 2 * gap
     fam = [("default", {}),
            ("bounded", {"bounds": (xl, xu)}),
+           ("bounded-infeasible-x0", {"bounds": (x0 + 0.3 * gap, x0 + 0.3 * gap + 2 * gap)}),      # documented 'x0 below lower bound, adjusting' case
+           ("bounded-one-sided", {"bounds": (None, x0 - 0.2)}),
            ("scaled", {"bounds": (xl, xu), "scaling_within_bounds": True, "rhobeg": 0.1}),
+           ("regression-max-npt", {"npt": (n + 1) * (n + 2) // 2}),                                # largest set the coordinate initialisation supports
            ("convex", {"projections": [lambda x, c=x0 + 0.3: problems.pball(x, c, 1.5)]}),
            ("regression", {"npt": 2 * n + 1, "user_params": {"regression.num_extra_steps": 1}}),
            ("regularised", {"h": lambda x: 0.1 * float(np.sum(np.abs(x))), "lh": 0.1 * np.sqrt(n),
